@@ -953,6 +953,14 @@ impl<'a> Gen<'a> {
                     let r = self.object_lit(d, None, true);
                     return self.bin(Ty::Obj, l, "+", r);
                 }
+                2 if self.cfg.comprehensions => {
+                    // comprehension fields that reach `self` lazily: { [k]: if k == "a" then E else [E, self.a] for k in [...] }
+                    let e1 = self.expr(&Ty::Any, d);
+                    let e2 = self.expr(&Ty::Any, d);
+                    let me = *self.rng.pick(&["self.a", "$.a", "self[\"a\"]", "std.length(std.objectFields(self))"]);
+                    let wrap = if self.rng.chance(1, 3) { "function() " } else { "" };
+                    return Node { ty: Ty::Obj, parts: vec![t("{ [ck]: if ck == \"a\" then "), P::N(e1), t(format!(" else {wrap}[")), P::N(e2), t(format!(", {me}] for ck in [\"a\", \"b\", \"c\"] }}"))] };
+                }
                 1 if self.cfg.comprehensions => {
                     let ks = self.expr(&Ty::Arr(Box::new(Ty::Str)), d);
                     let k = self.fresh("k");
@@ -1078,6 +1086,19 @@ impl<'a> Gen<'a> {
         Node { ty: Ty::Obj, parts: vec![t("{ "), P::L(items, ", "), t(" }")] }
     }
 }
+
+/// Objects built by comprehensions whose field values reach `self` / `$` / `super` lazily, consumed through a field
+/// of a temporary or through a method that escapes the object (the object is then reachable only through the
+/// field's own environment).
+pub const COMPREHENSION_SNIPPETS: &[&str] = &[
+    "{ [k]: if k == \"a\" then 1 else std.length(std.range(0, 40)) + self.a for k in [\"a\", \"b\"] }.b",
+    "local mk() = { [k]: if k == \"n\" then 41 else function() self.n + 1 for k in [\"n\", \"inc\"] }; local f = mk().inc; std.length(std.range(0, 60)) * 0 + f()",
+    "local fs = [{ [k]: if k == \"v\" then i else function(d) $.v + d for k in [\"v\", \"add\"] }.add for i in std.range(0, 20)]; std.foldl(function(acc, f) acc + f(1), fs, 0)",
+    "local base = { [k]: 10 for k in [\"x\", \"y\"] }; (base + { [k]: super[k] + std.length(std.objectFields(self)) for k in [\"x\"] }).x",
+    "std.map(function(o) o.get(), [{ [k]: if k == \"val\" then [i, i] else function() std.length(self.val) + i for k in [\"val\", \"get\"] } for i in std.range(0, 15)])",
+    "local o = { [\"f\" + i]: if i == 0 then 7 else self.f0 * i for i in std.range(0, 5) }; [o.f3, { [k]: self for k in [\"me\"] }.me.me == null]",
+    "{ [k]: { inner: $[if k == \"p\" then \"q\" else \"p\"] == null, n: std.length(std.range(0, 30)) } for k in [\"p\", \"q\"] }.p.n",
+];
 
 /// Deep equality / ordering of freshly built temporaries inside loops: compared values become garbage at once, so under
 /// dense collection schedules their storage is reused by the next iteration's values.
